@@ -293,6 +293,12 @@ def catalogue(tier="quick", mode="r1"):
                     # (two timed feeders v, x of the group junction j: each feeder's recorded flow is its own)
                     [("a", "v", "vac"), ("v", "a", "dur"), ("w", "a", "dur"), ("x", "d", "dur"), ("v", "j", "go"), ("x", "j", "go2"), ("j", "w", "p1"), ("j", "x", "p2"), ("w", "d", "mort")],
                     F(1, 4), {"a": [0, 64], "v": [[1, 2], [0, 16]], "w": [[0, 0], [4, 5]], "x": [[0, 0], [2, 3]], "d": [0]}))
+    # 9b a junction inside a duration group that also sends people out of the group (to an ordinary compartment and to the sink)
+    S.append(struct("tjout", [("a", "normal"), ("v", "timed", "dur"), ("j", "junction", "dur"), ("w", "timed", "dur"), ("d", "sink")],
+                    [("vac", "probability", 1, [0, 2]), ("dur", "duration", 1, [F(1, 2)], True), ("go", "probability", 1, [0, 1, 8]),
+                     ("p1", "proportion", None, [1, F(1, 2)]), ("p2", "proportion", None, [0, 1]), ("p3", "proportion", None, [0, F(1, 2)]), ("mort", "rate", 1, [0, 2])],
+                    [("a", "v", "vac"), ("v", "a", "dur"), ("w", "a", "dur"), ("v", "j", "go"), ("j", "w", "p1"), ("j", "a", "p2"), ("j", "d", "p3"), ("w", "d", "mort")],
+                    F(1, 4), {"a": [0, 64], "v": [[1, 2], [0, 16]], "w": [[0, 0], [4, 5]], "d": [0]}))
     # 10 two populations with transfers both ways, timed compartments of different duration (3 and 2 rows)
     S.append(struct("xfer", [("a", "normal"), ("v", "timed", "dur"), ("d", "sink")],
                     [("vac", "probability", 1, [2]), ("dur", "duration", 1, [F(3, 4)], True), ("mort", "rate", 1, [F(1, 2), 6])],
